@@ -81,6 +81,27 @@ func fineVerify(name string) *Scenario {
 	return s
 }
 
+// fineStopDisconnect: a disconnect notification (dispatcher goroutine) is handled while
+// Stop / StopWithContext (application goroutine) runs on the leading instance.
+func fineStopDisconnect(name string, stop Item) *Scenario {
+	s := K1(&Scenario{Name: name})
+	grace := 2*s.H + 7*ms + 13*us
+	s.Insts = []InstSpec{{ID: "A", Monitored: true, Grace: grace}}
+	s.Script = starts("A")
+	stop.Actor, stop.Inst, stop.At, stop.Manual = "life", "A", time.Hour, true
+	s.Script = append(s.Script,
+		Item{At: time.Hour, Actor: "conn", Do: "disconnect", Inst: "A", Manual: true},
+		stop)
+	s.FineAt = "ok:A.hb.Update#1"
+	s.FineFire = []int{1, 2}
+	s.FinePts = 600
+	s.Horizon = 1*s.H + grace + 2*s.H
+	s.LatencyBound = s.H/2 - ms
+	s.MaxSteps = 3000
+	s.Tags = map[string]string{"c11": "fine"}
+	return s
+}
+
 // fineFailover: B wins the election after A's graceful stop; the window starts when B's
 // winning Create is answered, so that late / duplicated watch notifications about A's
 // record (coarse events, available as alternatives inside the window) interleave with
@@ -171,7 +192,9 @@ func finePlan(prop, tier string) []PlanItem {
 		items = append(items,
 			PlanItem{fineGraceStop("fine/stop-vs-grace-expiry", Item{Do: "stop"}), p},
 			PlanItem{fineGraceStop("fine/stopctx-vs-grace-expiry", Item{Do: "stopctx", DeleteKey: true}), p},
-			PlanItem{fineVerify("fine/disconnect-vs-verification"), p})
+			PlanItem{fineVerify("fine/disconnect-vs-verification"), p},
+			PlanItem{fineStopDisconnect("fine/stop-vs-disconnect", Item{Do: "stop"}), p},
+			PlanItem{fineStopDisconnect("fine/stopctx-vs-disconnect", Item{Do: "stopctx", DeleteKey: true}), p})
 	}
 	return items
 }
